@@ -68,7 +68,8 @@ func VerifH_C30_ModeFitsPolicy() {
 	inst.SetMaximumBodySize(int(cconn.SendBufSize()))
 	csc.openingInstance = inst
 	nonce, _ := algo.MakeNonce()
-	req := &ua.OpenSecureChannelRequest{RequestType: ua.SecurityTokenRequestTypeIssue, SecurityMode: mode, ClientNonce: nonce, RequestedLifetime: 60000}
+	// the request type (Issue, Renew, or any other value) must not matter for the decision
+	req := &ua.OpenSecureChannelRequest{RequestType: ua.SecurityTokenRequestType(vfU32("requestType")), SecurityMode: mode, ClientNonce: nonce, RequestedLifetime: 60000}
 	_, err = csc.sendAsyncWithTimeout(context.Background(), req, 1, inst, nil, false, time.Second)
 	vfAssert(err == nil, "sending the OpenSecureChannel request fails")
 
